@@ -10,5 +10,7 @@ CONSTANTS
   TsFix = FALSE
   Late = {}
   NeedKnown = FALSE
+  SplitDeliver = FALSE
+  GuardedEvict = TRUE
 INVARIANTS SingleNewestOwner
 CHECK_DEADLOCK FALSE
